@@ -204,7 +204,7 @@ fn inval_strategy() -> BoxedStrategy<Inval> {
 
 pub fn run(ctx: &Ctx, c: &Case, o: &mut Outcome) {
     // world: the identity is registered, so that a valid request is a valid membership
-    let world = c01::Case { req: c.req.clone(), pre: vec![], post: c.history.clone(), entry: Entry::FromTree, place: c01::Place::SetLeaf, second: None };
+    let world = c01::Case { req: c.req.clone(), pre: vec![], post: c.history.clone(), entry: Entry::FromTree, place: c01::Place::SetLeaf, second: None, variant: 0 };
     let (mut r, m): (RLN, TreeModel) = match c01::build_world(&world) {
         Ok(x) => x,
         Err(e) => {
@@ -334,7 +334,7 @@ pub fn run(ctx: &Ctx, c: &Case, o: &mut Outcome) {
 /// nothing for a refused one; every record, cut out of the stream at its computed offset, must be
 /// accepted by verification.
 pub fn run_stream(req: &Req, items: &[(Via, Inval)], o: &mut Outcome) {
-    let world = c01::Case { req: req.clone(), pre: vec![], post: vec![], entry: Entry::FromTree, place: c01::Place::SetLeaf, second: None };
+    let world = c01::Case { req: req.clone(), pre: vec![], post: vec![], entry: Entry::FromTree, place: c01::Place::SetLeaf, second: None, variant: 0 };
     let (mut r, m): (RLN, TreeModel) = match c01::build_world(&world) {
         Ok(x) => x,
         Err(e) => {
